@@ -105,6 +105,8 @@ def run(repo, rep):
     rule_input_holes(repo, rep)
     rep.clause("C13-bd", "the saturating stand-in of the table generators keeps their arithmetic finite: the clamp bounds of finite_lut_value are literals of magnitude 1e30..1e200")
     rule_saturating_stand_in(repo, rep)
+    rep.clause("C13-be", "rewrites that run before the supported-operator check index a tensor's shape with a constant only under a test of its rank")
+    rule_pre_check_shape_rank(repo, rep)
     rep.clause("C13-ax", "an operator that the optimisation driver itself creates from a subgraph's tensors (not from an operator that passed the checks) is submitted to the supported-operator check before the driver returns")
     rule_driver_created_operators(repo, rep)
     rep.clause("C13-ay", "STRIDED_SLICE begin / end positions end up inside [0, dim] whatever the operand holds (the offsets become read windows unchecked)")
@@ -2759,3 +2761,163 @@ def rule_quantize_fold_elements(repo, rep):
     shp = [a for a in ast.walk(f) if (isinstance(a, ast.Assign) and str(norm(a.targets[0])).endswith(".values.shape") and "input_values.shape" in str(norm(a.value)))
            or (isinstance(a, ast.Call) and isinstance(a.func, ast.Attribute) and a.func.attr == "reshape" and "input_values.shape" in str(norm(a)))]
     rep.check(len(shp) >= len(loops), "C13-bc", site, f"the folded values take the input's shape in each of the {len(loops)} branches", f"{len(shp)} of {len(loops)} branches restore `input_values.shape`")
+
+
+def rule_pre_check_shape_rank(repo, rep):
+    """(be) the passes that run before supported_operator_check see every operator the semantic checker let through, of any rank (the rank
+    and shape constraints belong to the supported-operator check). In those rewrites a constant index into a tensor's shape
+    (`<t>.shape[k]`) is taken only under a test of that shape's length, or through full_shape()."""
+    go = repo.mod("tflite_graph_optimiser")
+    tg = go.func("tflite_optimise_graph")
+    lists = {st.targets[0].id: st.value for st in ast.walk(tg) if isinstance(st, ast.Assign) and isinstance(st.targets[0], ast.Name) and isinstance(st.value, ast.List)}
+    passes = []
+    for c in sorted((c_ for c_ in ast.walk(tg) if isinstance(c_, ast.Call) and (call_name(c_) or "").endswith("rewrite_graph_pre_order")), key=lambda c_: c_.lineno):
+        kw = {k.arg: k.value for k in c.keywords}
+        oplist = c.args[4] if len(c.args) > 4 else kw.get("op_rewrite_list")
+        if isinstance(oplist, ast.Name):
+            oplist = lists.get(oplist.id)
+        passes.append([e.id for e in oplist.elts if isinstance(e, ast.Name)] if isinstance(oplist, ast.List) else [])
+    pre = []
+    for names in passes:
+        if "supported_operator_check" in names:
+            break
+        pre += names
+    else:
+        raise AnalysisError("tflite_optimise_graph: the pass holding supported_operator_check was not found")
+    if len(pre) < 2:
+        raise AnalysisError(f"passes before the supported-operator check: {pre}")
+    sem_init = repo.mod("tflite_model_semantic").func("TFLiteSemantic.__init__")
+    out_not_scalar = any(isinstance(c_, ast.Call) and str(norm(c_.func)) == "self.generic_constraints.append" and str(norm(c_.args[0])).endswith("constraint_tens_output_scalar") for c_ in ast.walk(sem_init))
+    n = 0
+    for nm in pre:
+        fn = go.functions.get(nm)
+        if fn is None:
+            raise AnalysisError(f"rewrite {nm} not found")
+        site = f"ethosu/vela/tflite_graph_optimiser.py:{nm}"
+        for x in ast.walk(fn):
+            if not (isinstance(x, ast.Subscript) and isinstance(x.value, ast.Attribute) and x.value.attr == "shape" and isinstance(x.ctx, ast.Load)):
+                continue
+            k = try_fold(x.slice, default=None)
+            if not isinstance(k, int):
+                continue
+            base = str(norm(x.value))
+            n += 1
+            guarded = False
+            cur = x
+            while cur is not fn and cur is not None:
+                pp = go.parents.get(cur)
+                tests = []
+                if isinstance(pp, (ast.If, ast.IfExp)) and (cur in getattr(pp, "body", []) or cur is getattr(pp, "body", None)):
+                    tests.append(pp.test)
+                if isinstance(pp, ast.BoolOp) and isinstance(pp.op, (ast.And, ast.Or)) and cur in pp.values:
+                    tests += pp.values[:pp.values.index(cur)]
+                for t in tests:
+                    if f"len({base})" in str(norm(t)):
+                        guarded = True
+                cur = pp
+            # an early return on the rank earlier in the function also counts
+            for i_ in ast.walk(fn):
+                if isinstance(i_, ast.If) and i_.lineno < x.lineno and f"len({base})" in str(norm(i_.test)) and i_.body and isinstance(i_.body[-1], ast.Return):
+                    guarded = True
+            if not guarded and k in (0, -1) and out_not_scalar:
+                # the semantic checker rejects operators with a scalar output ('Output tensors cannot be scalar', generic): an operator that is
+                # still marked run_on_npu has an output of rank >= 1
+                names_ofm = {"ofm", "op.ofm", "op.outputs[0]"}
+                under_npu = False
+                cur = x
+                while cur is not fn and cur is not None:
+                    pp = go.parents.get(cur)
+                    if isinstance(pp, ast.If) and "run_on_npu" in str(norm(pp.test)) and "not " not in str(norm(pp.test)):
+                        under_npu = True
+                    cur = pp
+                if under_npu and base.rsplit(".shape", 1)[0] in names_ofm:
+                    rep.ok("C13-be", site, f"`{str(norm(x))}`", "rank >= 1: the semantic checker's generic 'Output tensors cannot be scalar' already cleared run_on_npu otherwise")
+                    continue
+            rep.check(guarded, "C13-be", site, f"`{str(norm(x))}` is read under a test of `len({base})`",
+                      f"no rank test: the rewrite runs before the supported-operator check on operators of any rank (AVERAGE_POOL_2D on a [1, 8] tensor: IndexError instead of CPU placement)")
+    if n < 2:
+        raise AnalysisError(f"pre-check passes: {n} constant shape indices found")
+    # the constraints of the supported-operator checker are themselves evaluated on feature maps of any rank: a constant index into
+    # `op.ifm.shape` / `op.ofm.shape` needs a rank test in the constraint, or an earlier constraint of every operator type it is registered
+    # for that lets only rank-4 feature maps pass (is_operator_supported stops at the first failing constraint); full_shape(4, ..) is safe
+    from ..exprnorm import conjuncts as _cj
+    from .c16 import registrations as _regs
+
+    so = repo.mod("tflite_supported_operators")
+    _g, spec, _e, _se = _regs(repo, so, "TFLiteSupportedOperators")
+
+    def shape_aliases(f):
+        al = {}
+        for st in ast.walk(f):
+            if isinstance(st, ast.Assign) and isinstance(st.targets[0], ast.Name) and str(norm(st.value)) in ("op.ifm.shape", "op.ofm.shape", "op.ifm2.shape"):
+                al[st.targets[0].id] = str(norm(st.value))
+        return al
+
+    def establishes(cname):
+        """shapes S for which constraint `cname` can only return valid = True when len(S) == 4"""
+        f = so.functions.get(f"TFLiteSupportedOperators.{cname}")
+        if f is None:
+            return set()
+        al = shape_aliases(f)
+        tops = [st for st in f.body if isinstance(st, ast.Assign) and str(norm(st.targets[0])) == "valid"]
+        if not tops or str(norm(tops[0].value)) != "False":
+            return set()
+        out = None
+        for st in ast.walk(f):
+            if isinstance(st, ast.Assign) and str(norm(st.targets[0])) == "valid" and st is not tops[0] and str(norm(st.value)) != "False":
+                ranks = set()
+                cur = st
+                while cur is not f and cur is not None:
+                    pp = so.parents.get(cur)
+                    if isinstance(pp, ast.If) and cur in pp.body:
+                        for cj in _cj(pp.test):
+                            mm = re.match(r"^len\((.+)\) == 4$", str(norm(cj)))
+                            if mm:
+                                ranks.add(al.get(mm.group(1), mm.group(1)))
+                    cur = pp
+                out = ranks if out is None else out & ranks
+        return out or set()
+
+    m = 0
+    for q, f in so.functions.items():
+        if not q.startswith("TFLiteSupportedOperators.constraint_"):
+            continue
+        cname = q.split(".", 1)[1]
+        al = shape_aliases(f)
+        site = f"ethosu/vela/tflite_supported_operators.py:{q}"
+        for x in ast.walk(f):
+            if not (isinstance(x, ast.Subscript) and isinstance(x.ctx, ast.Load)):
+                continue
+            b = str(norm(x.value))
+            b = al.get(b, b)
+            if b not in ("op.ifm.shape", "op.ofm.shape", "op.ifm2.shape"):
+                continue
+            k = try_fold(x.slice, default=None)
+            if not isinstance(k, int) or k in (0, -1):
+                continue
+            m += 1
+            names = {b} | {a_ for a_, v_ in al.items() if v_ == b}
+            guarded = False
+            cur = x
+            while cur is not f and cur is not None:
+                pp = so.parents.get(cur)
+                if isinstance(pp, ast.If) and cur in pp.body and any(f"len({nm_})" in str(norm(pp.test)) for nm_ in names):
+                    guarded = True
+                if isinstance(pp, ast.IfExp) and cur is pp.body and any(f"len({nm_})" in str(norm(pp.test)) for nm_ in names):
+                    guarded = True
+                if isinstance(pp, ast.BoolOp) and isinstance(pp.op, ast.And) and cur in pp.values and any(f"len({nm_})" in str(norm(v_)) for v_ in pp.values[:pp.values.index(cur)] for nm_ in names):
+                    guarded = True
+                cur = pp
+            for i_ in ast.walk(f):
+                if isinstance(i_, ast.If) and i_.lineno < x.lineno and any(f"len({nm_})" in str(norm(i_.test)) for nm_ in names) and i_.body and isinstance(i_.body[-1], ast.Return):
+                    guarded = True
+            how = "a rank test in the constraint"
+            if not guarded:
+                ops_ = [o_ for o_, cs in spec.items() if cname in cs]
+                if ops_ and all(any(b in establishes(c2) for c2 in spec[o_][:spec[o_].index(cname)]) for o_ in ops_):
+                    guarded, how = True, "an earlier constraint of every operator type it is registered for passes rank-4 feature maps only"
+            rep.check(guarded, "C13-be", site, f"`{str(norm(x))}` ({b}) is read under {how}",
+                      "no rank test and no earlier constraint establishes the rank: the supported-operator check raises IndexError for a feature map of lower rank instead of placing the operator "
+                      "on the CPU (AVERAGE_POOL_2D / CONV_2D on [1, 8], DEPTHWISE_CONV_2D with depth_multiplier 2 on [1, 4, 8], RESIZE_BILINEAR on [4, 8], TRANSPOSE_CONV [1, 4] -> [1, 8])")
+    if m < 6:
+        raise AnalysisError(f"supported-operator constraints: {m} constant shape indices found")
